@@ -368,6 +368,27 @@ def run_unit(prop, unit, pcfg, cache, usize=8, seed=None, want_canary=True, forc
             undec = [y for y in undec if not (y.get('fn') == p_ and y.get('module') == m_ and y['kind'] == 'rlimit')]
             fails = [y for y in fails if not (y['fn'] == p_ and y['module'] == m_)] + f2
             undec += u2
+            # still out of resources: split the query -- one generated variant of the function per postcondition of this
+            # property (all preconditions, loop invariants and hints kept), four at a time, each with the larger budget
+            if any(y['kind'] == 'rlimit' for y in u2) and not f2:
+                labs = [l for l in f.labels if l in gen.clauses and gen.clauses[l]['kind'] == 'ensures' and (prop in gen.clauses[l]['own'] or prop in gen.clauses[l]['dep'])][:8]
+                def split_one(lab):
+                    g1 = Extractor(REPO, SPEC, unit, usize_bytes=usize, force_external=force, target_endian=target_endian, only_ensures={(m_, p_): lab}).build()
+                    p1 = os.path.join(GEN, '%s_split_%s.rs' % (tag, hashlib.sha1(lab.encode()).hexdigest()[:8]))
+                    open(p1, 'w').write(g1.text)
+                    r3 = vrun.run(p1, [], rlimit * 5, 4, seed, cache, extra=['--verify-only-module', m_, '--verify-function', vname], multiple_errors=1)
+                    if not r3['have_results']: return lab, [], [{'kind': 'rlimit'}]
+                    f3, u3 = map_failures(r3, g1, unitcfg)
+                    return lab, [y for y in f3 if y['fn'] == p_ and y['module'] == m_], [y for y in u3 if y.get('fn') == p_ and y.get('module') == m_]
+                with ThreadPoolExecutor(max_workers=4) as tp:
+                    parts = list(tp.map(split_one, labs))
+                got_f = [y for _, fs, _ in parts for y in fs]
+                if got_f:
+                    # a postcondition that fails on its own is a failed obligation whatever the others do
+                    undec = [y for y in undec if not (y.get('fn') == p_ and y.get('module') == m_ and y['kind'] == 'rlimit')]
+                    fails += got_f
+                elif labs and all(not us for _, _, us in parts):
+                    undec = [y for y in undec if not (y.get('fn') == p_ and y.get('module') == m_ and y['kind'] == 'rlimit')]
     for f in gen.fns:
         if f.lost and f.module in mods:
             undec.append({'message': 'contract anchors lost, function left unverified (external_body): %s' % f.lost, 'fn': f.path, 'module': f.module,
